@@ -39,6 +39,9 @@ class Ctx:
         rid = rule or self.cur
         r = self.rules[rid]
         r['obligations'] += 1
+        for old in self.violations:
+            if old['rule'] == rid and old['construct'] == construct and old['message'] == message:
+                return
         r['violations'] += 1
         self.violations.append({'property': self.prop, 'rule': rid, 'construct': construct, 'where': where,
                                 'message': message, 'detail': detail})
